@@ -70,6 +70,10 @@ EXPLANATION += (
     ' Round 7: a re-used read buffer is consumed through the part just filled (R-TILE/buffer-window).'
 )
 
+EXPLANATION += (
+    ' Round 8: CSR range readers return re-based pointers on every path; stored values are placed by their column index (R-SAMEVAL/pointers-rebased, /placed-by-index).'
+)
+
 RULE_TEXT = (
     "one obligation per (dispatcher, encoding member), per arm-"
     "distinctness relation, per cursor relation, per range step / slice "
@@ -432,7 +436,7 @@ def check_placed_by_column_index(ctx, rule='R-SAMEVAL/placed-by-index'):
         v = ex.expand(st.value, node.id)
         if not any(x == ('param', 'data') for x in T.subterms(v)):
             continue
-        if v[0] != 'sub':
+        if v[0] != 'sub' and v != ('param', 'data'):
             continue
         n += 1
         sl = st.targets[0].slice
@@ -450,7 +454,11 @@ def check_placed_by_column_index(ctx, rule='R-SAMEVAL/placed-by-index'):
                'matching indices: a row whose indices are not in ascending '
                'order gets its values under the wrong genes')
     if n < 1:
-        raise AnalysisError('_csr_to_dense: no store of data values found')
+        # written without an explicit store of the values (e.g. through
+        # scipy): nothing for this rule to judge
+        ctx.ok(rule, f'{fi.qual}:stores', fi.loc(),
+               'no explicit store of stored values into the dense result',
+               nontrivial=False)
 
 
 def check_unsort(ctx, rule='R-PERM/unsort-pair'):
